@@ -1,6 +1,12 @@
 #!/bin/sh
 # tools/try_mutant.sh <patch.diff> <Cxx> [extra check args]  — apply to /repo, run check, undo
 P="$1"; shift; C="$1"; shift
-cd /repo && git apply --3way "$P" 2>/dev/null || git apply "$P" || { echo "PATCH DOES NOT APPLY"; exit 3; }
+cd /repo
+if [ -n "$(git status --porcelain --untracked-files=no)" ]; then echo "REPO NOT CLEAN"; exit 3; fi
+if ! git apply "$P" 2>/dev/null; then
+  if ! git apply --3way "$P" >/dev/null 2>&1; then
+    git reset -q --hard HEAD; echo "PATCH DOES NOT APPLY"; exit 3
+  fi
+fi
 cd /verif && ./check "$C" "$@" 2>&1 | tail -2
-cd /repo && git reset -q && git checkout -q -- . && git status --short | head -3
+cd /repo && git reset -q --hard HEAD && git status --short --untracked-files=no | head -3
